@@ -1,1 +1,198 @@
 //! verif-hooks: eval area (read-only accessors; see mod.rs)
+//!
+//! * `variables_snapshot` / `settings_snapshot`: a per-entry, name-sorted view
+//!   of `Context.variables` and of every other `Context` field, so that a
+//!   harness can compare two contexts without depending on `HashMap` order.
+//! * `evaluate_kind`: runs `eval::evaluate_to_spans` (what the public
+//!   `evaluate*` functions call) and reports the `FendError` variant name
+//!   instead of the message.
+//! * `parse_tree`: lexer + parser only, returns the AST as a neutral tree.
+//! * `without_handlers`: a copy of a context with the random source and the
+//!   exchange-rate handler removed (what a preview evaluates on).
+//! Nothing here changes any state of the context passed in.
+
+use crate::ast::Expr;
+use crate::value::Value;
+use crate::{Context, Interrupt};
+
+/// One user variable: name, serialized bytes (or the serialization error),
+/// `Debug` rendering, plain rendering (or the formatting error).
+#[derive(Clone, Debug, PartialEq, Eq)]
+pub struct VarEntry {
+	pub name: String,
+	pub bytes: Result<Vec<u8>, String>,
+	pub debug: String,
+	pub plain: Result<String, String>,
+}
+
+struct NeverInt;
+impl Interrupt for NeverInt {
+	fn should_interrupt(&self) -> bool {
+		false
+	}
+}
+
+/// All variables of the context, sorted by name.  Formatting runs on a clone.
+#[must_use]
+pub fn variables_snapshot(ctx: &Context) -> Vec<VarEntry> {
+	let mut names: Vec<&String> = ctx.variables.keys().collect();
+	names.sort();
+	let mut scratch = ctx.clone();
+	scratch.random_u32 = None;
+	scratch.get_exchange_rate = None;
+	names
+		.into_iter()
+		.map(|k| {
+			let v = &ctx.variables[k];
+			let mut buf = Vec::new();
+			let bytes = match v.serialize(&mut buf) {
+				Ok(()) => Ok(buf),
+				Err(e) => Err(e.to_string()),
+			};
+			let plain = v
+				.format_to_plain_string(0, crate::Attrs::default(), &mut scratch, &NeverInt)
+				.map_err(|e| e.to_string());
+			VarEntry {
+				name: k.clone(),
+				bytes,
+				debug: format!("{v:?}"),
+				plain,
+			}
+		})
+		.collect()
+}
+
+/// Every non-variable field of the context as stable text.  Function and
+/// handler identity is reported as an address (0 = not installed).
+#[must_use]
+pub fn settings_snapshot(ctx: &Context) -> Vec<(String, String)> {
+	let rng = ctx.random_u32.map_or(0usize, |f| f as usize);
+	let rates = ctx
+		.get_exchange_rate
+		.as_ref()
+		.map_or(0usize, |a| std::sync::Arc::as_ptr(a).cast::<()>() as usize);
+	vec![
+		("current_time".to_string(), format!("{:?}", ctx.current_time)),
+		("fc_mode".to_string(), format!("{:?}", ctx.fc_mode)),
+		("output_mode".to_string(), format!("{:?}", ctx.output_mode)),
+		(
+			"decimal_separator".to_string(),
+			format!("{:?}", ctx.decimal_separator),
+		),
+		("custom_units".to_string(), format!("{:?}", ctx.custom_units)),
+		("random_u32".to_string(), rng.to_string()),
+		("get_exchange_rate".to_string(), rates.to_string()),
+	]
+}
+
+/// A copy of `ctx` without random source and exchange-rate handler.
+#[must_use]
+pub fn without_handlers(ctx: &Context) -> Context {
+	let mut c = ctx.clone();
+	c.random_u32 = None;
+	c.get_exchange_rate = None;
+	c
+}
+
+/// `Ok((plain, is_unit))` or `Err((variant name, message))`.
+pub fn evaluate_kind<I: Interrupt>(
+	input: &str,
+	ctx: &mut Context,
+	int: &I,
+) -> Result<(String, bool), (String, String)> {
+	if input.is_empty() {
+		return Ok((String::new(), true));
+	}
+	match crate::eval::evaluate_to_spans(input, None, ctx, int) {
+		Ok((spans, is_unit, _attrs)) => {
+			let mut s = String::new();
+			for sp in &spans {
+				s.push_str(&sp.string);
+			}
+			Ok((s, is_unit))
+		}
+		Err(e) => {
+			let d = format!("{e:?}");
+			let kind: String = d
+				.chars()
+				.take_while(|c| c.is_ascii_alphanumeric() || *c == '_')
+				.collect();
+			Err((kind, e.to_string()))
+		}
+	}
+}
+
+/// Neutral AST tree.
+#[derive(Clone, Debug, PartialEq, Eq)]
+pub enum Tree {
+	S(String),
+	L(Vec<Tree>),
+}
+
+fn s(t: &str) -> Tree {
+	Tree::S(t.to_string())
+}
+
+fn node(tag: &str, mut rest: Vec<Tree>) -> Tree {
+	let mut v = vec![s(tag)];
+	v.append(&mut rest);
+	Tree::L(v)
+}
+
+fn dump(e: &Expr, ctx: &mut Context) -> Tree {
+	match e {
+		Expr::Literal(Value::Num(_)) => {
+			let Expr::Literal(v) = e else { unreachable!() };
+			match v.format_to_plain_string(0, crate::Attrs::default(), ctx, &NeverInt) {
+				Ok(t) => node("num", vec![s(&t)]),
+				Err(err) => node("num-unprintable", vec![s(&err.to_string())]),
+			}
+		}
+		Expr::Literal(Value::Unit) => node("unit", vec![]),
+		Expr::Literal(Value::String(t)) => node("str", vec![s(t.as_ref())]),
+		Expr::Literal(v) => node("lit", vec![s(&format!("{v:?}"))]),
+		Expr::Ident(i) => node("id", vec![s(i.as_str())]),
+		Expr::Parens(a) => node("par", vec![dump(a, ctx)]),
+		Expr::UnaryMinus(a) => node("neg", vec![dump(a, ctx)]),
+		Expr::UnaryPlus(a) => node("pos", vec![dump(a, ctx)]),
+		Expr::UnaryDiv(a) => node("inv", vec![dump(a, ctx)]),
+		Expr::Factorial(a) => node("fact", vec![dump(a, ctx)]),
+		Expr::Bop(op, a, b) => node(
+			"bop",
+			vec![s(op.to_string().trim()), dump(a, ctx), dump(b, ctx)],
+		),
+		Expr::Apply(a, b) => node("app", vec![dump(a, ctx), dump(b, ctx)]),
+		Expr::ApplyFunctionCall(a, b) => node("appfn", vec![dump(a, ctx), dump(b, ctx)]),
+		Expr::ApplyMul(a, b) => node("appmul", vec![dump(a, ctx), dump(b, ctx)]),
+		Expr::As(a, b) => node("as", vec![dump(a, ctx), dump(b, ctx)]),
+		Expr::Fn(x, b) => node("fn", vec![s(x.as_str()), dump(b, ctx)]),
+		Expr::Of(x, b) => node("of", vec![s(x.as_str()), dump(b, ctx)]),
+		Expr::Assign(x, b) => node("set", vec![s(x.as_str()), dump(b, ctx)]),
+		Expr::Equality(is_eq, a, b) => node(
+			"eq",
+			vec![s(if *is_eq { "1" } else { "0" }), dump(a, ctx), dump(b, ctx)],
+		),
+		Expr::Statements(a, b) => node("seq", vec![dump(a, ctx), dump(b, ctx)]),
+	}
+}
+
+/// Lex and parse exactly as `eval::evaluate_to_value` does (including the
+/// missing-open-parenthesis completion); nothing is evaluated.
+pub fn parse_tree(input: &str, ctx: &Context) -> Result<Tree, String> {
+	use crate::lexer;
+	let mut scratch = without_handlers(ctx);
+	let mut tokens = vec![];
+	let mut missing_open_parens: i32 = 0;
+	for token in lexer::lex(input, ctx, &NeverInt) {
+		let token = token.map_err(|e| e.to_string())?;
+		if matches!(token, lexer::Token::Symbol(lexer::Symbol::CloseParens)) {
+			missing_open_parens += 1;
+		}
+		tokens.push(token);
+	}
+	for _ in 0..missing_open_parens {
+		tokens.insert(0, lexer::Token::Symbol(lexer::Symbol::OpenParens));
+	}
+	let parsed = crate::parser::parse_tokens(&tokens).map_err(|e| e.to_string())?;
+	Ok(dump(&parsed, &mut scratch))
+}
